@@ -134,6 +134,10 @@ def generate(rng, tier):
             yield ("r", [["print", list(a)], [tail, [0] * 8]])
             yield ("r", [["p", list(a)], [tail, [0] * 8], ["q", list(a)]])
             yield ("r", [[tail, [0] * 8], ["p", list(a)]])
+    for tail in ("a[1m", "x;31m", "[0m", "q[39m", ";1m", "[", "[3", "1"):
+        for a in ([2, 0, 0, 0, 0, 0, 0, 0], [0, 5, 1, 0, 0, 0, 0, 0], [0, 0, 0, 0, 0, 1, 0, 0]):
+            yield ("r", [[tail, list(a)]])
+            yield ("r", [["p", list(a)], [tail, [0] * 8], ["q", list(a)]])
     # (c) around the grammar
     for s in NEAR:
         yield ("f", s)
